@@ -45,6 +45,7 @@ def getStep (j : Json) : Except String HStep := do
     | [o, c] => return .edit o c
     | _ => .error "edit: expected [object, content]"
   else if let some p := fldOpt j "param" then return .setParam (← p.getNat?)
+  else if let some o := fldOpt j "abort" then return .abort (← getNatList o) (← fldNat j "at")
   else return .call (← getNatList (← fld j "call"))
 
 /-- histories: `R` is one 0/1 matrix on content keys per parameter value of the callable -/
